@@ -375,6 +375,9 @@ namespace Pistache
                 return stream;
 
             std::ostream os(&stream.buf_);
+            // chunk framing is protocol text: not in the global locale, which
+            // may group digits
+            os.imbue(std::locale::classic());
             os << std::hex << size(val) << crlf;
             // only the chunk size is hexadecimal
             os << std::dec << val << crlf;
